@@ -193,8 +193,11 @@ def pmap(fn, shards, nproc=None):
     nproc = min(nproc or NPROC, max(1, len(shards)))
     total = Acc()
     if nproc <= 1 or os.environ.get("VERIF_SERIAL"):
-        for s in shards:
-            total.merge(fn(s))
+        for i, s in enumerate(shards):
+            try:
+                total.merge(fn(s))
+            except Exception:  # noqa: BLE001
+                total.merge(_crash_acc(i, traceback.format_exc()))
         return total
     global _SHARDS
     _WORKER_FN, _SHARDS = fn, shards
@@ -203,9 +206,22 @@ def pmap(fn, shards, nproc=None):
         results = pool.map(_worker, range(len(shards)), chunksize=1)
     for idx, acc, err in sorted(results, key=lambda r: r[0]):
         if err is not None:
-            raise RuntimeError(f"harness error in shard {idx}:\n{err}")
+            total.merge(_crash_acc(idx, err))
+            continue
         total.merge(acc)
     return total
+
+
+def _crash_acc(idx, err):
+    """An exception that escaped from the library through the harness while exploring a shard. On the
+    unchanged tree this never happens (every check runs clean); on a changed tree it means the library now
+    raises where it did not, which is reported as a violation with the traceback as witness rather than as a
+    harness crash. VERIF_STRICT=1 restores the hard failure (used while developing the harness)."""
+    if os.environ.get("VERIF_STRICT"):
+        raise RuntimeError(f"harness error in shard {idx}:\n{err}")
+    acc = Acc()
+    acc.violation("unexpected_exception_in_library_call", {"shard": idx}, {"traceback_tail": err[-1500:]})
+    return acc
 
 
 def chunks(seq, n):
@@ -554,6 +570,7 @@ def _pmap_raw(fn, shards, nproc=None):
     out = []
     for idx, acc, err in sorted(results, key=lambda r: r[0]):
         if err is not None:
-            raise RuntimeError(f"harness error in shard {idx}:\n{err}")
+            acc = _crash_acc(idx, err)
+            acc._succ = []
         out.append(acc)
     return out
